@@ -4,9 +4,9 @@
 use std::hash::{Hash, Hasher};
 use std::panic::{catch_unwind, AssertUnwindSafe};
 
-use deadpool::managed::{Pool, PoolError, TimeoutType, Timeouts};
+use deadpool::managed::{Object, Pool, PoolError, TimeoutType, Timeouts};
 use deadpool::Status;
-use dpmc::explorer::{note_state, Outcome, Violation};
+use dpmc::explorer::{self, note_state, Outcome, Violation};
 use dpmc::sched::{self, ActorStatus, RunCfg, Task, Verdict};
 use dpmc::trace;
 
@@ -531,6 +531,25 @@ pub fn run_conc(sc: &ConcScenario) -> Outcome {
     Outcome { obs, violations }
 }
 
+/// Polls a probe `get()`; a panic inside it is a finding (`panic-in-get`),
+/// not a harness failure.  `Err(())` = panicked (already recorded).
+fn probe_poll(t: &mut Task<Result<Object<Mgr>, PoolError<MErr>>>, gi: usize) -> Result<Option<Result<Object<Mgr>, PoolError<MErr>>>, ()> {
+    match std::panic::catch_unwind(std::panic::AssertUnwindSafe(|| t.poll())) {
+        Ok(r) => Ok(r),
+        Err(p) => {
+            let m = explorer::panic_msg(&p);
+            trace!("  probe get panicked: {}", m);
+            t.cancel();
+            w(|w| {
+                w.get_panicked(gi, &m);
+                w.end_op(PROBE);
+            });
+            Err(())
+        }
+    }
+}
+
+
 /// End-of-history capacity probe through the public API only.
 pub fn probe(pool: &Pool<Mgr>) {
     w(|w| {
@@ -552,7 +571,8 @@ pub fn probe(pool: &Pool<Mgr>) {
         let gi = w(|w| w.begin_get(PROBE, true));
         let p = pool.clone();
         let mut t = Task::new(async move { p.timeout_get(&nb_timeouts()).await });
-        match t.poll() {
+        let Ok(polled) = probe_poll(&mut t, gi) else { break };
+        match polled {
             None => {
                 t.cancel();
                 w(|w| {
@@ -600,7 +620,7 @@ pub fn probe(pool: &Pool<Mgr>) {
         let p = pool.clone();
         let mut t = Task::new(async move { p.get().await });
         let expect_obj = lims.iter().any(|l| *l > 0);
-        match t.poll() {
+        match probe_poll(&mut t, gi).unwrap_or(None) {
             Some(r) => {
                 let ok = r.is_ok();
                 finish_get(PROBE, gi, r);
